@@ -1384,6 +1384,58 @@ int pthread_once(pthread_once_t* o, void (*fn)(void)) {
   return 0;
 }
 
+// Function-local statics: the guard must give the happens-before edge from the initialising thread to
+// every later user, and a second thread arriving during initialisation must block in the scheduler.
+// Layout (Itanium ABI): byte 0 = initialised; we use byte 1 as "in progress" while scheduled.
+typedef int (*guard_acquire_t)(uint64_t*);
+typedef void (*guard_release_t)(uint64_t*);
+int __cxa_guard_acquire(uint64_t* g) {
+  Thread* me = self();
+  if (!me) {
+    REAL(guard_acquire_t, __cxa_guard_acquire);
+    return real___cxa_guard_acquire(g);
+  }
+  unsigned char* b = (unsigned char*)g;
+  for (;;) {
+    sched_point_impl(me, false);
+    if (do_load(me, (uintptr_t)b, 1, 2, false) != 0) return 0;
+    if (b[1] == 0) {
+      b[1] = 1;
+      return 1;
+    }
+    block(me, B_ONCE, (uintptr_t)g, -1);
+  }
+}
+static void guard_wake(uint64_t* g) {
+  for (int i = 0; i < G.nth; i++) {
+    Thread* t = &G.th[i];
+    if (t->st == T_BLOCKED && t->bk == B_ONCE && t->wait_addr == (uintptr_t)g) make_runnable(t, false);
+  }
+}
+void __cxa_guard_release(uint64_t* g) {
+  Thread* me = self();
+  if (!me) {
+    REAL(guard_release_t, __cxa_guard_release);
+    real___cxa_guard_release(g);
+    return;
+  }
+  unsigned char* b = (unsigned char*)g;
+  b[1] = 0;
+  sched_point_impl(me, false);
+  do_store(me, (uintptr_t)b, 1, 1, 3);
+  guard_wake(g);
+}
+void __cxa_guard_abort(uint64_t* g) {
+  Thread* me = self();
+  if (!me) {
+    REAL(guard_release_t, __cxa_guard_abort);
+    real___cxa_guard_abort(g);
+    return;
+  }
+  ((unsigned char*)g)[1] = 0;
+  guard_wake(g);
+}
+
 int sched_yield(void) {
   Thread* me = self();
   if (me) {
